@@ -6,12 +6,12 @@ From Coq Require Import Extraction ExtrOcamlBasic.
 From Salsa Require Import Base.
 From Salsa.Kern Require Import CoreK.
 From Salsa.Core Require Model Spec Dsl.
-From Salsa.Cycle Require Import StampK Model Spec Cert.
+From Salsa.Cycle Require Import StampK Model Spec Cert DslSpec.
 Extraction Language OCaml.
 Extraction "cycle_model.ml"
   Model.cstep Model.crun_ops Model.cinit_db Model.clevel Model.cfetch Model.cpanic_code
   Model.iter_of Model.raw_heads Model.conv_of
-  Spec.kleene Spec.spec_fallback Spec.cyclic_nodes Spec.succs Cert.is_fixpoint_state Cert.is_fallback_state Cert.csnap_of
+  Spec.kleene Spec.spec_fallback Spec.cyclic_nodes Spec.succs DslSpec.mono_table Cert.is_fixpoint_state Cert.is_fallback_state Cert.csnap_of
   Salsa.Core.Spec.evalo Salsa.Core.Dsl.prog_of Salsa.Core.Dsl.binop_eval Base.panic_code
   StampK.stamp_iteration StampK.stamp_ccount
   N.of_nat N.to_nat Nat.add.
